@@ -37,7 +37,7 @@ def adt(path, vi, fields=()):
     return ("adt", path, vi, list(fields))
 
 
-STD_VARIANTS = {"core::option::Option": ["None", "Some"], "core::result::Result": ["Ok", "Err"],
+STD_VARIANTS = {"core::cmp::Ordering": ["Less", "Equal", "Greater"], "core::option::Option": ["None", "Some"], "core::result::Result": ["Ok", "Err"], "core::num::FpCategory": ["Nan", "Infinite", "Zero", "Subnormal", "Normal"],
                 "core::ops::control_flow::ControlFlow": ["Continue", "Break"]}
 
 
@@ -54,6 +54,7 @@ class Interp:
         # no other loop-carried state (every other local live at the loop head unchanged) yields ("recurse", scrutinee):
         # the function continues exactly as a recursive call on that value would.
         self.loop_recurse = None
+        self._tsubs = [{}]     # type arguments of the generic functions being interpreted (innermost last)
 
     def variant_index(self, path, name):
         if path in STD_VARIANTS:
@@ -124,6 +125,9 @@ class Interp:
                 bb = nxt
             elif "call" in t:
                 f = t["call"]
+                if self._tsubs[-1]:
+                    from .inline import _subst_types
+                    f = _subst_types(f, self._tsubs[-1])
                 argv = [self.operand(body, env, a) for a in t["args"]]
                 res = self.call(body, f, argv, depth)
                 self.assign(body, env, t["dest"], res)
@@ -167,11 +171,23 @@ class Interp:
             if r_ is not NO_VALUE:
                 return r_
         if d in ("core::clone::Clone::clone", "core::ops::deref::Deref::deref", "core::convert::AsRef::as_ref", "core::borrow::Borrow::borrow",
-                 "core::convert::Into::into", "core::convert::From::from", "core::convert::identity") and argv and not is_opaque(argv[0]):
-            return argv[0]
+                 "core::convert::Into::into", "core::convert::From::from", "core::convert::identity") and argv and not is_opaque(argv[0]) \
+                and not ((f.get("resolved") or {}).get("local") and self.inline is not None and self.inline((f.get("resolved") or {}).get("def") or d, (f.get("resolved") or {}).get("id"))
+                         and self.crate.body((f.get("resolved") or {}).get("id")) is not None):
+            return argv[0]          # (a local impl — Deref of a newtype, a custom From — is interpreted instead)
         if d in ("core::cmp::PartialEq::eq", "core::cmp::PartialEq::ne") and len(argv) == 2 and not contains_opaque(argv[0]) and not contains_opaque(argv[1]):
             r = argv[0] == argv[1]
             return r if d.endswith("eq") else not r
+        if d.startswith("core::ops::function::Fn") and name in ("call", "call_mut", "call_once") and len(argv) == 2 and isinstance(argv[0], tuple) and argv[0] and argv[0][0] in ("closure", "fn") \
+                and isinstance(argv[1], tuple) and argv[1] and argv[1][0] == "tuple":
+            return self.apply(body, argv[0], list(argv[1][1]), depth)
+        if name in ("is_some", "is_none", "is_ok", "is_err") and argv and is_adt(argv[0]) and argv[0][1] in ("core::option::Option", "core::result::Result") and d.startswith(argv[0][1]):
+            some_like = argv[0][2] == (1 if argv[0][1].endswith("Option") else 0)
+            return some_like if name in ("is_some", "is_ok") else not some_like
+        if d in ("core::cmp::Ord::cmp", "core::cmp::PartialOrd::partial_cmp") and len(argv) == 2 and all(isinstance(x_, (bool, int)) for x_ in argv):
+            a_, b_ = int(argv[0]), int(argv[1])
+            o_ = adt("core::cmp::Ordering", 0 if a_ < b_ else 1 if a_ == b_ else 2, [])
+            return o_ if d.endswith("::cmp") else adt("core::option::Option", 1, [o_])
         RI = "core::ops::range::RangeInclusive"
         if d == RI + "::<Idx>::new" and len(argv) == 2:
             return adt(RI, 0, [argv[0], argv[1], False])
@@ -201,17 +217,32 @@ class Interp:
             return argv[0][2] == 0
         if name in FLOAT_PREDICATES and ("<impl f64>" in d or "<impl f32>" in d) and argv and isinstance(argv[0], float):
             return FLOAT_PREDICATES[name](argv[0])
+        if name == "classify" and ("<impl f64>" in d or "<impl f32>" in d) and argv and isinstance(argv[0], float):
+            v_ = argv[0]
+            k_ = 0 if v_ != v_ else 1 if v_ in (float("inf"), float("-inf")) else 2 if v_ == 0 else 3 if abs(v_) < 2.2250738585072014e-308 else 4
+            return adt("core::num::FpCategory", k_, [])
         if name in ASCII_PREDICATES and ("<impl u8>" in d or "<impl char>" in d) and argv and isinstance(argv[0], int) and not isinstance(argv[0], bool):
             v = argv[0]
             return 0 <= v < 128 and ASCII_PREDICATES[name](chr(v))
+        if f.get("trait") and not (f.get("resolved") or {}).get("local") and hasattr(self.crate, "resolve_trait_call"):
+            late = self.crate.resolve_trait_call(f)      # a local trait's method on a type that is concrete by now
+            if late is not None:
+                f = dict(f, resolved=late)
         rid = (f.get("resolved") or {}).get("id") if f.get("resolved", {}).get("local") else (f.get("id") if f.get("local") else None)
         if rid and depth < self.max_depth and (self.inline is None or self.inline(d, rid)):
             cb = self.crate.body(rid)
-            if cb is not None:
+            if cb is not None and cb.kind in ("fn", "assoc_fn", "closure"):
+                res_ = f.get("resolved") or {}
+                targs = res_.get("substs") if res_.get("local") and res_.get("id") == rid else f.get("substs")
+                gens = cb.d.get("generics") or []
+                tsub = dict(zip(gens, targs)) if targs is not None and gens and len(gens) == len(targs) else {}
+                self._tsubs.append({k_: v_ for k_, v_ in tsub.items() if v_ != {"param": k_}})
                 try:
                     return self.run(cb, argv, depth + 1)
                 except Unsupported:
                     pass
+                finally:
+                    self._tsubs.pop()
         # tuple-struct / enum-variant constructors used as functions (`.map(Wrapper)`)
         try:
             a_ = self.F.adt(d)
@@ -335,6 +366,8 @@ class Interp:
                     v = v[3][e["f"]]
                 elif isinstance(v, tuple) and v and v[0] == "tuple":
                     v = v[1][e["f"]]
+                elif isinstance(v, tuple) and v and v[0] == "closure" and e["f"] < len(v[2]):
+                    v = v[2][e["f"]]          # captured variable of a closure value
                 elif is_opaque(v):
                     v = ("proj", v, (variant, e["f"], e.get("n")))
                 else:
@@ -456,6 +489,13 @@ class Interp:
                     return a * b
                 if op == "BitXor":
                     return a ^ b
+                if op in ("Shl", "ShlUnchecked") and 0 <= b < 128:
+                    return a << b
+                if op in ("Shr", "ShrUnchecked") and 0 <= b < 128:
+                    return a >> b
+                if op in ("Div", "Rem") and b != 0:
+                    q_ = abs(a) // abs(b) * (1 if (a >= 0) == (b >= 0) else -1)
+                    return q_ if op == "Div" else a - q_ * b
                 if op in ("AddWithOverflow", "SubWithOverflow", "MulWithOverflow", "AddUnchecked", "SubUnchecked", "MulUnchecked"):
                     v_ = a + b if op.startswith("Add") else a - b if op.startswith("Sub") else a * b
                     return ("tuple", [v_, False]) if op.endswith("WithOverflow") else v_
